@@ -348,6 +348,37 @@ def nontrivial(mol):
 # property-level judges (R) — real code only
 # ------------------------------------------------------------------------------------------------
 
+def kekule_valences(m):
+    """per-atom sum of bond orders of a Kekule form (order 8 ignored): the same for every Kekule structure of one molecule."""
+    k = m.copy()
+    try:
+        k.kekule()
+    except Exception:
+        pass
+    return {n: sum(int(b) for b in nb.values() if int(b) != 8) for n, nb in k._bonds.items()}, \
+        any(int(b) == 4 for *_, b in k.bonds())
+
+
+def graph_diff(m1, m2, pos):
+    """bond-level comparison of two chython molecules under the atom map `pos` (numbers of m1 -> numbers of m2), insensitive to
+    the Kekule / aromatic spelling: same edges, same special (order 8) bonds, same triple bonds, same per-atom Kekule valence."""
+    bad = []
+    e1 = {frozenset((pos[n], pos[m])): int(b) for n, m, b in m1.bonds()}
+    e2 = {frozenset((n, m)): int(b) for n, m, b in m2.bonds()}
+    if set(e1) != set(e2):
+        return [('bonds', f'edge sets differ: {sorted(map(sorted, set(e1) ^ set(e2)))}')]
+    for k in e1:
+        if e1[k] != e2[k] and not (e1[k] in (1, 2, 4) and e2[k] in (1, 2, 4)):
+            bad.append(('bond-order', f'{sorted(k)}: {e1[k]} -> {e2[k]}'))
+    (v1, left1), (v2, left2) = kekule_valences(m1), kekule_valences(m2)
+    if not left1 and not left2:
+        for n, v in v1.items():
+            if v != v2[pos[n]]:
+                bad.append(('bond-order', f'atom {n}: Kekule valence {v} -> {v2[pos[n]]}'))
+                break
+    return bad
+
+
 def judge_A(mol, keep=True):
     """chython -> RDKit -> chython on the real code. Returns list of (what-kind, detail); empty = holds."""
     from chython.utils.rdkit import to_rdkit_molecule, from_rdkit_molecule
@@ -371,14 +402,10 @@ def judge_A(mol, keep=True):
                     # the bridge wrote chython's count; RDKit's valence model then filled the atom up (known finding)
                     what = 'hydrogens/rdkit-adds-implicit-H'
                 bad.append((what, f'atom {n}: {x!r} -> {y!r}'))
-    e1 = {frozenset((pos[n], pos[m])): int(b) for n, m, b in mol.bonds()}
-    e2 = {frozenset((n, m)): int(b) for n, m, b in back.bonds()}
-    if set(e1) != set(e2):
-        bad.append(('bonds', f'edge sets differ: {sorted(map(sorted, set(e1) ^ set(e2)))}'))
-    else:
-        for k in e1:
-            if e1[k] != e2[k] and not (e1[k] in (1, 2, 4) and e2[k] in (1, 2, 4)):
-                bad.append(('bond-order', f'{sorted(k)}: {e1[k]} -> {e2[k]}'))
+    gd = graph_diff(mol, back, pos)
+    if gd:   # with different bonds a hydrogen difference is a consequence, not the known RDKit fill-up
+        bad = [(w.split('/')[0], d) for w, d in bad]
+    bad += gd
     c1, c2 = configuration(mol, pos), configuration(back)
     if c1 != c2:
         bad.append(('configuration', f'{sorted(c1 ^ c2)}'))
@@ -402,8 +429,21 @@ def judge_B(rd):
     bad = []
     mol = from_rdkit_molecule(rd)
     back = to_rdkit_molecule(mol, keep_mapping=False)
+    for ra, rb in zip(rd.GetAtoms(), back.GetAtoms()):       # atom order is preserved by both conversions
+        for what, x, y in (('element', ra.GetAtomicNum(), rb.GetAtomicNum()), ('charge', ra.GetFormalCharge(), rb.GetFormalCharge()),
+                           ('isotope', ra.GetIsotope(), rb.GetIsotope()),
+                           ('radical', ra.GetNumRadicalElectrons(), rb.GetNumRadicalElectrons()),
+                           ('hydrogens', ra.GetTotalNumHs(), rb.GetTotalNumHs())):
+            if x != y:
+                if what == 'hydrogens' and y > x and rb.GetNumExplicitHs() == x and rb.GetNumImplicitHs() == y - x:
+                    what = 'hydrogens/rdkit-adds-implicit-H'     # known finding: `to` does not forbid implicit hydrogens
+                bad.append((what, f'atom {ra.GetIdx()} ({ra.GetSymbol()}): {x!r} -> {y!r}'))
+    gd = rd_graph_diff(rd, back)
+    if gd:
+        bad = [(w.split('/')[0], d) for w, d in bad]
+    bad += gd
     a, b = rdcan(rd), rdcan(back)
-    if a != b:
+    if a != b and not bad:
         bad.append(('rdkit-canonical', f'{a} -> {b}'))
     for ra, (n, ca) in zip(rd.GetAtoms(), mol.atoms()):
         if (getattr(ca, '_parsed_mapping', None) or 0) != ra.GetAtomMapNum():
@@ -429,6 +469,28 @@ def rdkit_accepts(mol):
 def chython_accepts(smi):
     m = parse(smi)
     return m is not None
+
+
+def rd_graph_diff(r1, r2):
+    """bond-level comparison of two RDKit molecules with the same atom order, on Kekule forms."""
+    from rdkit import Chem
+    ks = []
+    for r in (r1, r2):
+        k = Chem.Mol(r)
+        try:
+            Chem.Kekulize(k, clearAromaticFlags=True)
+        except Exception:
+            return []
+        ks.append(k)
+    e = [{frozenset((b.GetBeginAtomIdx(), b.GetEndAtomIdx())): b.GetBondType() for b in k.GetBonds()} for k in ks]
+    if set(e[0]) != set(e[1]):
+        return [('bonds', f'edge sets differ: {sorted(map(sorted, set(e[0]) ^ set(e[1])))}')]
+    v = [[sum(b.GetBondTypeAsDouble() for b in a.GetBonds() if str(b.GetBondType()) not in ('DATIVE', 'ZERO', 'UNSPECIFIED'))
+          for a in k.GetAtoms()] for k in ks]
+    for i, (x, y) in enumerate(zip(*v)):
+        if x != y:
+            return [('bond-order', f'atom {i}: Kekule valence {x} -> {y}')]
+    return []
 
 
 def readers_agree(mol, rd):
@@ -487,7 +549,8 @@ def judge_X(smi):
     except Exception as e:
         return bad + [('normalise', type(e).__name__)]
     if s1 != s2:
-        if configuration(back) != configuration(mol) or \
+        ident = dict(zip(mol._atoms, back._atoms))
+        if configuration(mol, ident) != configuration(back) or graph_diff(mol, back, ident) or \
                 [(x.atomic_number, x._charge, x._implicit_hydrogens) for x in back._atoms.values()] != \
                 [(x.atomic_number, x._charge, x._implicit_hydrogens) for x in mol._atoms.values()]:
             bad.append(('from-vs-chython-reader', f'from(RDKit reading) {s1} != chython reading {s2}'))
@@ -515,6 +578,8 @@ STEREO = [
     'C/B=C/C', 'C/C=B/C', 'C/B=N/C', 'C/C(F)=B/C', 'CC/S(C)(=O)=N/C', 'C/S(CC)(=O)=C/C', 'C/N=S(/C)(=O)CC', 'C/P(C)(CC)=N/C',
     'C/C=[N+](/C)[O-]', 'C/[N+]([O-])=C/C', 'C/S(CC)=C/C', 'C/C=S(/C)CC',
 ]
+# RDKit molecules below RDKit's own default valence (accepted by both toolkits): the known finding seen from the RDKit side
+LOWVAL_RD = ['C[Si-](C)(C)C', 'C[PH-](C)(C)C', 'C[Cl+](C)C', 'C[SiH2-]C']
 OTHER = [
     'Cl[Pt](Cl)(N)N', 'N~[Cu]', '[NH3]~[Cu]~[NH3]', 'O~[Fe]', 'C[Mg]Br', '[Na+].[Cl-]', 'C[N+](=O)[O-]', '[13CH4]', '[2H]O[2H]',
     'C[CH2] |^1:1|', 'C[N]C |^1:1|', '[OH] |^1:0|', 'c1ccccc1', 'c1ccncc1', 'c1cc[nH]c1', 'C1=CC=CC=C1', 'O=c1cc[nH]cc1',
@@ -559,6 +624,7 @@ def source_smiles(ctx):
             t = flip_marks(rng, s)
             if t != s:
                 out.append((f'stereo[{i}]~{k}', t))
+    out += [(f'lowval[{i}]', s) for i, s in enumerate(LOWVAL_RD)]
     smis = molgen.corpus_smiles()
     k = 150 if ctx.quick else 1500
     stereo_idx = [i for i, s in enumerate(smis) if '@' in s or '/' in s or '\\' in s]
